@@ -23,6 +23,9 @@ enum Op {
     ResetBit(usize),
     Harvest,
     Clone,
+    /// single-page set_addr_range that first looks whether the (only) harvest of the harness has
+    /// already returned; if it has, the page must be set at the end
+    SetRangeAfter(usize),
 }
 
 fn bits(words: &[u64]) -> BTreeSet<usize> {
@@ -51,17 +54,31 @@ fn run_harness(ctx: &Ctx, name: &'static str, pages: usize, threads: Vec<Vec<Op>
         b.check(move || {
             ITER.fetch_add(1, Ordering::Relaxed);
             let bmap = loom::sync::Arc::new(AtomicBitmap::new(pages, NonZeroUsize::new(1).unwrap()));
+            let harvest_done = loom::sync::Arc::new(loom::sync::atomic::AtomicBool::new(false));
+            let must_be_set: loom::sync::Arc<std::sync::Mutex<Vec<usize>>> = loom::sync::Arc::new(std::sync::Mutex::new(Vec::new()));
             let mut handles = Vec::new();
             for ops in th.clone() {
                 let bm = bmap.clone();
+                let harvest_done = harvest_done.clone();
+                let must_be_set = must_be_set.clone();
                 handles.push(loom::thread::spawn(move || {
                     let mut outs: Vec<(bool, Vec<u64>)> = Vec::new();
                     for op in ops {
                         match op {
+                            Op::SetRangeAfter(p) => {
+                                let after = harvest_done.load(loom::sync::atomic::Ordering::SeqCst);
+                                bm.set_addr_range(p, 1);
+                                if after {
+                                    must_be_set.lock().unwrap().push(p);
+                                }
+                            }
                             Op::SetBit(p) => bm.set_bit(p),
                             Op::SetRange(s, l) => bm.set_addr_range(s, l),
                             Op::ResetBit(p) => bm.reset_bit(p),
-                            Op::Harvest => outs.push((true, bm.get_and_reset())),
+                            Op::Harvest => {
+                                outs.push((true, bm.get_and_reset()));
+                                harvest_done.store(true, loom::sync::atomic::Ordering::SeqCst);
+                            }
                             Op::Clone => outs.push((false, AtomicBitmap::clone(&bm).get_and_reset())),
                         }
                     }
@@ -94,7 +111,7 @@ fn run_harness(ctx: &Ctx, name: &'static str, pages: usize, threads: Vec<Vec<Op>
             for ops in &th {
                 for op in ops {
                     match op {
-                        Op::SetBit(p) => *marked.entry(*p).or_insert(0) += 1,
+                        Op::SetBit(p) | Op::SetRangeAfter(p) => *marked.entry(*p).or_insert(0) += 1,
                         Op::SetRange(s, l) => {
                             for p in *s..*s + *l {
                                 *marked.entry(p).or_insert(0) += 1
@@ -121,6 +138,11 @@ fn run_harness(ctx: &Ctx, name: &'static str, pages: usize, threads: Vec<Vec<Op>
             for p in marked.keys() {
                 if !reset.contains(p) && reported.get(p).copied().unwrap_or(0) == 0 {
                     bad = Some(format!("page {} was marked, never reset, but neither reported by a fetch-and-clear nor set at the end", p));
+                }
+            }
+            for p in must_be_set.lock().unwrap().iter() {
+                if !fin.contains(p) {
+                    bad = Some(format!("page {} was marked after the only fetch-and-clear had returned, but is not set at the end", p));
                 }
             }
             for c in &clones {
@@ -155,7 +177,7 @@ fn main() {
     let args: Vec<String> = std::env::args().collect();
     let tier = if args.iter().any(|a| a == "thorough") { Tier::Thorough } else { Tier::Quick };
     let ctx = Ctx::new("C08", tier, "model_checking");
-    ctx.set_rule("loom (C11 memory model): AtomicBitmap compiled from the current tree with loom's atomics; every execution loom generates (all interleavings and all orderings permitted by the memory orders used) of small marker / harvester / clone harnesses on a 70-page bitmap; same per-page conservation oracle as the SC explorer. states/transitions/traces = executions enumerated by loom.");
+    ctx.set_rule("loom (C11 memory model): AtomicBitmap compiled from the current tree with loom's atomics; every execution loom generates (all interleavings and all orderings permitted by the memory orders used) of small marker / harvester / clone harnesses on a 70-page bitmap; same per-page conservation oracle as the SC explorer, plus: a mark that saw (through a SeqCst flag) that the only fetch-and-clear had returned must be set at the end. states/transitions/traces = executions enumerated by loom.");
     ctx.assume("loom's model of the C11 memory model; harness sizes are smaller than under the SC scheduler");
     use Op::*;
     run_harness(&ctx, "two-markers-same-word", 70, vec![vec![SetBit(3)], vec![SetBit(5)]], None);
@@ -163,7 +185,9 @@ fn main() {
     run_harness(&ctx, "two-markers-vs-harvest", 70, vec![vec![SetRange(63, 2)], vec![SetBit(63)], vec![Harvest]], Some(3));
     run_harness(&ctx, "reset-vs-mark", 70, vec![vec![ResetBit(10)], vec![SetBit(11), SetBit(10)]], None);
     run_harness(&ctx, "marker-vs-clone", 70, vec![vec![SetRange(63, 2)], vec![Clone]], None);
+    run_harness(&ctx, "remark-vs-harvest", 70, vec![vec![SetRangeAfter(65), SetRangeAfter(65)], vec![Harvest]], None);
     if tier.thorough() {
+        run_harness(&ctx, "remark-vs-harvest-vs-marker", 70, vec![vec![SetRangeAfter(65), SetRangeAfter(65)], vec![Harvest], vec![SetBit(65)]], Some(3));
         run_harness(&ctx, "two-harvesters-vs-marker", 70, vec![vec![Harvest], vec![Harvest], vec![SetRange(63, 2)]], Some(3));
         run_harness(&ctx, "marker-range-3-vs-harvest-twice", 70, vec![vec![SetRange(62, 3)], vec![Harvest, Harvest]], None);
     }
